@@ -10,6 +10,7 @@ import (
 	"context"
 	"crypto/sha1"
 	"encoding/hex"
+	"errors"
 	"fmt"
 	"sort"
 	"strings"
@@ -74,6 +75,7 @@ type World struct {
 	Violations    []Violation
 	seq           int
 	crashArmed    map[uint64]crashSpec
+	failArmed     map[uint64]int
 	LeadersByTerm map[uint64]uint64
 	Cut           map[[2]uint64]bool
 	// Durable counts the durable writes each node has started so far.
@@ -128,6 +130,20 @@ func NewWorld(n int, newApp func(*Node) App) *World {
 		delete(w.crashArmed, id)
 		w.node(id).Crashed = true
 		return true
+	}
+	w.failArmed = map[uint64]int{}
+	w.S.FailDurable = func(t *vrt.Thread, site string) error {
+		id := nodeOf(t.Name)
+		c, ok := w.failArmed[id]
+		if !ok {
+			return nil
+		}
+		if c > 1 {
+			w.failArmed[id] = c - 1
+			return nil
+		}
+		delete(w.failArmed, id)
+		return ErrStoreRefuses
 	}
 	fakes.Intercept = w.intercept
 	w.S.Begin()
@@ -251,7 +267,18 @@ func (w *World) Disarm(id uint64) {
 			delete(w.crashArmed, k)
 		}
 	}
+	for k := range w.failArmed {
+		if id == 0 || k == id {
+			delete(w.failArmed, k)
+		}
+	}
 }
+
+// ErrStoreRefuses is what an armed write failure returns.
+var ErrStoreRefuses = errors.New("simulated: the store refuses the write (no space left on device)")
+
+// ArmFail makes the count-th durable write of node id from now fail: it returns an error and writes nothing.
+func (w *World) ArmFail(id uint64, count int) { w.failArmed[id] = count }
 
 // ArmCrash makes node id crash at its count-th durable write from now, before or after it.
 func (w *World) ArmCrash(id uint64, count int, after bool) {
